@@ -40,15 +40,17 @@ def boxes(grid=4):
 
 def make_page(np, layout, bxs, slanted=False):
     pl = layout.PageLayout(id='p', page_size=(300, 300))
+    # 'int': the clear slant with INTEGER coordinate arrays, which is what the PAGE XML reader produces
+    dt = int if slanted == 'int' else float
     for k, (x0, y0, x1, y1) in enumerate(bxs):
-        reg = layout.RegionLayout('r%02d' % k, np.array([[x0, y0], [x1, y0], [x1, y1], [x0, y1]], dtype=float))
+        reg = layout.RegionLayout('r%02d' % k, np.array([[x0, y0], [x1, y0], [x1, y1], [x0, y1]], dtype=dt))
         reg.transcription = 't%d' % k
         nl = 1 + (k % 2)
         for j in range(nl):
             yb = y0 + 10 + 12 * j
-            dy = {False: 0.0, True: 6.0}.get(slanted, slanted)      # rise of the line over its width: none / clearly slanted / a fraction of a pixel
-            reg.lines.append(layout.TextLine(id='r%02d-l%d' % (k, j), baseline=np.array([[x0 + 2, yb], [x1 - 2 if x1 > x0 + 4 else x0 + 30, yb + dy]], dtype=float),
-                                             polygon=np.array([[x0 + 2, yb - 8], [x1 - 2, yb - 8 + dy], [x1 - 2, yb + 3 + dy], [x0 + 2, yb + 3]], dtype=float),
+            dy = {False: 0.0, True: 6.0, 'int': 6}.get(slanted, slanted)      # rise of the line over its width: none / clearly slanted / a fraction of a pixel
+            reg.lines.append(layout.TextLine(id='r%02d-l%d' % (k, j), baseline=np.array([[x0 + 2, yb], [x1 - 2 if x1 > x0 + 4 else x0 + 30, yb + dy]], dtype=dt),
+                                             polygon=np.array([[x0 + 2, yb - 8], [x1 - 2, yb - 8 + dy], [x1 - 2, yb + 3 + dy], [x0 + 2, yb + 3]], dtype=dt),
                                              heights=[8.0, 3.0], transcription='line %d %d' % (k, j), index=j))
         pl.regions.append(reg)
     return pl
@@ -150,11 +152,12 @@ def plans(thorough):
     for h in hp:
         # no slant, a clear slant (6 px) and barely tilted lines (0.05 / 0.3 px over the line: a de-skew angle far below 0.1 degrees
         # and just below 1 degree) — the de-skew rotation and its inverse must cancel for every angle
-        for sl in (False, True, 0.05, 0.3):
+        for sl in (False, True, 0.05, 0.3, 'int'):
             for ip in (0.1, 0.5):
                 out.append((h, sl, ip))
     for a, b in pairs[::(11 if thorough else 53)]:
         out.append(((a, b), 0.05, 0.1))
+        out.append(((a, b), 'int', 0.5))
     return out
 
 
